@@ -17,6 +17,16 @@ from vmon.harness import h64
 EXIT_HELD, EXIT_VIOLATED, EXIT_INCONCLUSIVE = 0, 1, 2
 
 
+def _max_notes(results):
+    """Numeric notes of the shards (e.g. largest number of line events per input character, largest CPU time of one call)."""
+    out = {}
+    for r in results:
+        for k, v in (r.get("notes") or {}).items():
+            if isinstance(v, (int, float)) and not isinstance(v, bool):
+                out[k] = max(out.get(k, v), v)
+    return out
+
+
 def _merge_counts(results):
     c = collections.Counter()
     for r in results:
@@ -183,6 +193,7 @@ def run_property(prop, tier, seed, replay=None, keep=False, quiet=False):
         "exhaustive": bool(getattr(mod, "EXHAUSTIVE", False)) and not replay,
         "shards": nshards,
         "monitor_counters": {k: int(v) for k, v in sorted(counters.items())},
+        "maxima": _max_notes(results),
         "coverage_sets": {k: {"size": len(v), "members": sorted(v)[:60]} for k, v in sorted(sets.items())},
         "known_findings_observed": [
             {"id": e["id"], "key": e["key"], "cases": f["count"],
